@@ -191,7 +191,11 @@ def run(ctx):
             except Exception as e:
                 report('lis-gate', 'LIS convert(1.5, %r, %r) raised %s, not a units error' % (x, y, type(e).__name__), dict(a=repr(x), b=repr(y)))
     ctx.notes.update(pairs=npairs, triples=ntriples, gate_pairs=ngate, lis_pairs=nlis, case_classes=classes)
-    ctx.sample(dict(kind='pair', a='DEGC', b='DEGF', v=0.0, convert=OU.convert(0.0, table['DEGC'], table['DEGF']),
+    try:
+        shown = OU.convert(0.0, table['DEGC'], table['DEGF'])
+    except Exception as e:          # already reported above as a violation of the pair
+        shown = 'raised %s' % type(e).__name__
+    ctx.sample(dict(kind='pair', a='DEGC', b='DEGF', v=0.0, convert=shown,
                     spec=float(conv_exact(Fraction(0), fr['DEGC'], fr['DEGF']))))
     ctx.exhaustive = False
     ctx.rule = ('one case per ordered unit pair of one dimension/category (quick: <= 400 sampled pairs per OSDD dimension), per '
